@@ -227,6 +227,11 @@ def stepC (fs : List String) (ca : Option Nat) : String :=
       | .panic => "panic"
       | .stream docs e => s!"ok end={if e then "error" else "ok"} docs=" ++ fmtList (fun (d : ProxySearch.ID × Nat) => s!"{fmtID d.1}={d.2}") docs
     | _, _, _, _, _, _, _, _ => "bad-op"
+  | ["storereq", _cap, off, sz] =>
+    -- GetAPISearchRequest: what every store is asked, whatever conf.MaxRequestedDocuments (`_cap`) is
+    match off.toNat?, sz.toNat? with
+    | some off, some sz => let r := storeRequest off sz; s!"size={r.size} offset={r.offset} limit={r.limit}"
+    | _, _ => "bad-op"
   | ["wire", hot, cold, off, sz, rev, hint, order, behav] =>
     -- the Search handler behind the server's recover interceptor: a panic reaches the client as codes.Internal
     match parseArrival hot, parseArrival cold, off.toNat?, sz.toNat?, bool? rev, hint.toNat?,
